@@ -52,6 +52,7 @@ def basicRender (w : World) (F : Nat → LId → Option VId → Bool) (u : VId) 
 structure VOpts where
   type : String            -- "object", "class", …
   titleByAttr : Bool       -- false: `$id`;  true: the title is formatted from attribute a0
+  viaAttr : Bool           -- the replacement field reads an attribute OF the value (`{a0.real}`): numbers only
   deriving Repr, DecidableEq
 
 structure LOpts where
@@ -90,7 +91,9 @@ def resolveL (o : POpts) (c : LCls) : Except Err LOpts :=
 def title (w : World) (vo : VOpts) (v : VId) : Except Err String :=
   if vo.titleByAttr then
     match (w.attrs v).find? (·.1 == 0) with
-    | some (_, val) => .ok s!"T{val}"
+    | some (_, val) =>
+      -- value classes 0, 1, 2 are numbers (they have `.real`, equal to themselves); str / tuple / None have not
+      if vo.viaAttr && val > 2 then .error .attribute else .ok s!"T{val}"
     | none => .error .key
   else .ok s!"id{v}"
 
